@@ -152,8 +152,9 @@ ORACLE_MASK = {'C01': 1, 'C02': 2, 'C03': 2, 'C04': 6, 'C11': 10, 'C06': 48, 'C0
 
 def fam_machine(v):
     mask = ORACLE_MASK.get(v.get('prop'), 0xFF)
-    return 'machine_model.cpp', [['NS=3', 'LIMIT=2', 'ORACLES=%d' % mask, 'DEPTH=7'], ['NS=3', 'LIMIT=1', 'ORACLES=%d' % mask, 'DEPTH=7'],
-                                 ['NS=4', 'LIMIT=3', 'ORACLES=%d' % mask, 'DEPTH=6']]
+    # (BUDGET_S: seconds of script enumeration per configuration)
+    return 'machine_model.cpp', [['NS=3', 'LIMIT=2', 'ORACLES=%d' % mask, 'DEPTH=7', 'BUDGET_S=15'], ['NS=3', 'LIMIT=1', 'ORACLES=%d' % mask, 'DEPTH=7', 'BUDGET_S=10'],
+                                 ['NS=4', 'LIMIT=3', 'ORACLES=%d' % mask, 'DEPTH=6', 'BUDGET_S=10']]
 
 
 def fam_memory(v):
